@@ -80,7 +80,11 @@ class ParallelArchipelago(Archipelago):
             Fitness of best individual in the archipelago
         """
         best_on_proc = self.island.get_best_fitness()
-        best_fitness = self.comm.allreduce(best_on_proc, op=MPI.MIN)
+        all_best_fitnesses = self.comm.allgather(best_on_proc)
+        best_fitness = all_best_fitnesses[0]
+        for fitness in all_best_fitnesses:
+            if fitness < best_fitness or np.isnan(best_fitness).any():
+                best_fitness = fitness
         return best_fitness
 
     def get_best_individual(self):
@@ -93,7 +97,11 @@ class ParallelArchipelago(Archipelago):
         """
         best_on_proc = self.island.get_best_individual()
         all_best_indvs = self.comm.allgather(best_on_proc)
-        best_indv = min(all_best_indvs, key=lambda x: x.fitness)
+        best_indv = all_best_indvs[0]
+        for indv in all_best_indvs:
+            if indv.fitness < best_indv.fitness or \
+                    np.isnan(best_indv.fitness).any():
+                best_indv = indv
         return best_indv
 
     def _step_through_generations(self, num_steps):
